@@ -90,10 +90,11 @@ const (
 	opDeleteSnap
 	opPullAck
 	opChase
+	opNack
 	nOps
 )
 
-var opNames = [...]string{"createTopic", "deleteTopic", "createSub", "deleteSub", "updateSub", "publish", "pull", "ack", "modack", "seekTime", "snapshot", "seekSnap", "advance", "job", "dlSweep", "expirySweep", "setDelay", "fault", "restart", "deleteSnap", "pullAck", "chase"}
+var opNames = [...]string{"createTopic", "deleteTopic", "createSub", "deleteSub", "updateSub", "publish", "pull", "ack", "modack", "seekTime", "snapshot", "seekSnap", "advance", "job", "dlSweep", "expirySweep", "setDelay", "fault", "restart", "deleteSnap", "pullAck", "chase", "nack"}
 
 func baseWeights() []int {
 	w := make([]int, nOps)
@@ -119,6 +120,7 @@ func baseWeights() []int {
 	w[opDeleteSnap] = 1
 	w[opPullAck] = 6
 	w[opChase] = 0
+	w[opNack] = 3
 	return w
 }
 
@@ -155,6 +157,7 @@ func (r *Run) configure() {
 		w[opPublish] *= 2
 		w[opAck] *= 2
 	case "dl":
+		w[opNack] = 8
 		w[opDLSweep] = 6
 		w[opAdvance] *= 2
 		w[opPull] *= 2
@@ -446,6 +449,8 @@ func (r *Run) step() *Violation {
 		return r.doSetDelay(t.Intn(r.nSubs))
 	case opChase:
 		return r.doChase()
+	case opNack:
+		return r.doNack()
 	case opFault:
 		r.doArmFault()
 		return nil
@@ -1675,5 +1680,38 @@ func (r *Run) doChase() *Violation {
 		}
 		r.M.probe("chase_round")
 	}
+	return nil
+}
+
+// doNack sends a backoff-rescheduling nack (the streamer's Nack input, which the HTTP pusher
+// produces for failed pushes) through the real stream ack+nack transaction wrapper.
+func (r *Run) doNack() *Violation {
+	if actions.VerifStreamAckNack == nil {
+		return nil
+	}
+	_, ids := r.pickAckIDs()
+	var us []uuid.UUID
+	var good []string
+	for _, id := range ids {
+		if u, err := uuid.Parse(id); err == nil {
+			us = append(us, u)
+			good = append(good, id)
+		}
+	}
+	if len(us) == 0 {
+		return nil
+	}
+	pf := r.pendingFault
+	r.pendingFault = ""
+	_ = pf // nacks are not faulted here (C09 enumerates the wrapper's fault points)
+	t0 := time.Now()
+	err := actions.VerifStreamAckNack(context.Background(), r.W.Client, uuid.Nil, "nack", nil, us)
+	t1 := time.Now()
+	r.ev("stream Nack %s -> %v", r.descIDs(good), err)
+	r.cev("Nack %d %v", len(good), err == nil)
+	if err != nil {
+		return viol("C04", "nack_error", "nack of %v failed: %v", good, err)
+	}
+	r.M.Nack(good, t0, t1)
 	return nil
 }
